@@ -849,6 +849,29 @@ def meta_checks(ctx, rng, ncases):
                         or list(l.seeds) != list(r.seeds)):
                     found.append((SITE_MERGE, "associativity", "(a+b)+c differs from a+(b+c)",
                                   {"A": A, "B1": B1, "B2": B2, "got": [la, ra]}))
+                # associativity for arbitrary mixing weights (C15_merge_associative_any_p)
+                pa = Fr(rng.randint(1, 15), 16)
+                qa = Fr(rng.randint(1, 15), 16)
+                l = oa2.merge(ob1, float(pa)).merge(ob2, float(qa))
+                r = oa2.merge(ob1.merge(ob2, float(qa * (1 - pa) / (1 - pa * qa))), float(pa * qa))
+                ctx.count_case(("assoc-p", c), nontrivial=True)
+                la, ra = flat(l.average_expect), flat(r.average_expect)
+                ls, rs = flat(l.std_expect), flat(r.std_expect)
+                if (any(abs(x - y) > 1e-10 * max(1, abs(x)) for x, y in zip(la, ra))
+                        or any(abs(x * x - y * y) > 1e-8 * max(1, abs(x * x)) for x, y in zip(ls, rs))
+                        or list(l.seeds) != list(r.seeds)):
+                    found.append((SITE_MERGE, "associativity-any-p",
+                                  "(a +_p b) +_q c differs from a +_{pq} (b +_{q(1-p)/(1-pq)} c)",
+                                  {"A": A, "B1": B1, "B2": B2, "p": str(pa), "q": str(qa), "got": [la, ra]}))
+            # commutativity: merge(a, b, p) and merge(b, a, 1 - p) (C15_merge_commutative)
+            m2 = ob.merge(oa, None if p is None else float(1 - fr(p)))
+            ctx.count_case(("comm", c), nontrivial=True)
+            am2, sm2 = flat(m2.average_expect), flat(m2.std_expect)
+            if (any(abs(x - y) > 1e-10 * max(1, abs(x)) for x, y in zip(am, am2))
+                    or any(abs(x * x - y * y) > 1e-8 * max(1, abs(x * x)) for x, y in zip(sm, sm2))
+                    or m2.num_trajectories != m.num_trajectories):
+                found.append((SITE_MERGE, "commutativity", "merge(a, b, p) differs from merge(b, a, 1 - p)",
+                              {"A": A, "B": B, "p": p, "got": [am, am2]}))
     return found
 
 
@@ -1406,9 +1429,14 @@ def run(ctx):
         "Model/C15.v is hand-written (flattened expectation vectors over Qc, world of result "
         "objects with a heap of stats dictionaries), mirroring the source after the repairs "
         "3ad4eea, ca7c500, b075e21, 191187a; tied to multitrajresult.py by the exact "
-        "state correspondence below; the square root of std_e_data, stored states / final "
-        "states (average_states, average_final_state), NmmcResult trace weighting and "
-        "target-tolerance end conditions are outside the model",
+        "state correspondence below; the square root of std_e_data, NmmcResult trace weighting "
+        "and target-tolerance end conditions are outside the model",
+        "Model/C15_st.v: stored states / final states (processors, on-demand recomputation in "
+        "average_states / average_final_state, merge with its reads of the operands), states "
+        "flattened to one vector, _to_dm the identity (kets are projected by the harness); the "
+        "theorems of Props/C15_st.v assume one option set (store_states, store_final_state, "
+        "keep_runs_results) per history and trajectories carrying states exactly when the options "
+        "ask for them; histories mixing keep_runs_results are covered by the correspondence only",
         "Model/C15_ens.v: _minimum_roundoff_ensemble over Q (floats in the code); the final "
         "positional writes ntraj[index] = count are tied by correspondence only",
         "exact rationals stand for floats: correspondence cases are generated so that all "
@@ -1429,6 +1457,7 @@ def run(ctx):
     vlib.standard_proof_step(ctx, ["Props/C15.vo", "Props/C15_st.vo"],
                              ["Props/C15.v", "Props/C15_st.v"], search)
 
+    ctx.log("proof step done")
     # 1. the former counterexamples, as regression cases
     for name, case in WITNESSES.items():
         found, I = oracle(ctx, case)
@@ -1498,6 +1527,7 @@ def run(ctx):
     ctx.cov["number_comparisons"] = cstats
     ctx.sample({"case": cases[-1], "impl_final_state": json.loads(json.dumps(impls[-1], default=str))})
 
+    ctx.log("history correspondence done (%d cases)" % len(cases))
     # 3. free-mode histories (any N, any dyadic p): oracle only, tolerance 1e-11
     #    (validation, not part of the correspondence)
     nfree = 120 if ctx.quick else 3000
@@ -1516,6 +1546,7 @@ def run(ctx):
     for site, sig, what, extra in states_checks(ctx, rng, 60 if ctx.quick else 1500):
         ctx.violation(site, sig, what, extra)
 
+    ctx.log("oracles (free mode, metamorphic, states) done")
     # 4c. stored states: exact correspondence with Model/C15_st.v
     scases = [st_gen_case(rng, big=not ctx.quick) for _ in range(70 if ctx.quick else 1500)]
     simpls = [StImpl(c).run() for c in scases]
@@ -1547,6 +1578,7 @@ def run(ctx):
                                "kind": "stcorr"}, found_input=False)
     dist["states_corr"] = sdist
 
+    ctx.log("states correspondence done")
     # 5. _minimum_roundoff_ensemble: model correspondence + specification oracle
     ecases = ens_cases(ctx, rng, 150 if ctx.quick else 5000)
     hdr = ("From Coq Require Import List ZArith.\nImport ListNotations.\n"
@@ -1588,9 +1620,12 @@ def run(ctx):
         "and variance, stats dictionaries, raised errors) on generated histories.  The oracle "
         "recomputes the weighted statistics with fractions from the list of trajectories added "
         "and always runs; free-mode histories and associativity use a 1e-11 tolerance and are "
-        "validation only.  average_states / average_final_state (all option sets, kets and "
-        "density matrices, read-add-read and merge scenarios) are checked by an "
-        "implementation-level oracle only - they are not under any theorem.  "
+        "validation only.  average_states / average_final_state: theorems of Props/C15_st.v over "
+        "Model/C15_st.v, tied by exact comparison of the state sums, kept trajectories and both "
+        "averages after generated histories (all option sets, mixed keep_runs_results, kets and "
+        "density matrices), plus the independent read-add-read / merge oracle.  Commutativity and "
+        "associativity for arbitrary p are proved on the model and checked on the implementation "
+        "with a 1e-10 tolerance (validation).  "
         "_minimum_roundoff_ensemble: model (Model/C15_ens.v) compared exactly with the "
         "implementation on dyadic weight lists, plus the docstring constraints and "
         "get_state_and_weight (frequency * correction = weight) as oracle.")
